@@ -49,6 +49,18 @@ def _walk(node, locked, acc):
         return          # nested functions run later, not here
     for op in _ops(node):
         acc['ops'].append((op, locked))
+    # a private helper of the class (self._name(...)) runs here, with the lock its caller holds
+    if isinstance(node, ast.Call) and isinstance(node.func, ast.Attribute) and node.func.attr.startswith('_') \
+            and isinstance(node.func.value, ast.Name) and node.func.value.id == 'self':
+        helper = acc.get('methods', {}).get(node.func.attr)
+        if helper is not None and node.func.attr not in acc.get('_stack', []):
+            acc.setdefault('_stack', []).append(node.func.attr)
+            depth = acc.get('_depth', 0)
+            for st in helper.body:
+                acc['_depth'] = 1
+                _walk(st, locked, acc)
+            acc['_depth'] = depth
+            acc['_stack'].pop()
     acc['_depth'] = acc.get('_depth', 0) + 1
     for ch in ast.iter_child_nodes(node):
         _walk(ch, locked, acc)
@@ -58,9 +70,11 @@ def _walk(node, locked, acc):
 def gen_schedlock():
     tree = parse('src/schedule.py')
     rows = []
+    cls = [n for n in tree.body if isinstance(n, ast.ClassDef) and n.name == 'Schedule'][0]
+    methods = dict((n.name, n) for n in cls.body if isinstance(n, ast.FunctionDef))
     for m in METHODS:
         fn = find_func(tree, m, cls='Schedule')
-        acc = {'ops': []}
+        acc = {'ops': [], 'methods': methods}
         for st in fn.body:
             acc['_depth'] = 1
             _walk(st, False, acc)
